@@ -78,7 +78,7 @@ public class VtlParseServer {
         }
         @Override protected int visitDecisionState(DecisionState p) {
             int alt = super.visitDecisionState(p);
-            if (decisionsSeen != null) decisionsSeen.set(p.decision * 64 + Math.min(alt, 63));
+            if (decisionsSeen != null && p.decision >= 0 && alt >= 0) decisionsSeen.set(p.decision * 64 + Math.min(alt, 63));
             ATNState first = atn.ruleToStartState[p.ruleIndex].transition(0).target;
             int[] rec = alts.computeIfAbsent(_ctx, k -> new int[]{0, 0});
             if (p == first && rec[0] == 0 && rec[1] == 0 && !(p instanceof StarLoopEntryState)) rec[0] = alt;
@@ -237,6 +237,7 @@ public class VtlParseServer {
         String[] head = lines[0].trim().split(" ");
         int k = Integer.parseInt(head[0]);
         boolean cmp = head[1].equals("cmp");
+        int firstFixed = head.length > 2 ? Integer.parseInt(head[2]) : -1;   // shard: fix the first token
         List<String> alpha = new ArrayList<>();
         for (int i = 1; i < lines.length; i++) if (!lines[i].isEmpty()) alpha.add(lines[i]);
         long total = 0, accepted = 0, rejected = 0, crashes = 0, diffs = 0, badpos = 0, fullctx = 0;
@@ -245,8 +246,9 @@ public class VtlParseServer {
         Map<String, Long> errKinds = new TreeMap<>();
         int n = alpha.size();
         int[] idx = new int[k];
-        for (int len = 0; len <= k; len++) {
+        for (int len = (firstFixed >= 0 ? 1 : 0); len <= k; len++) {
             Arrays.fill(idx, 0);
+            if (firstFixed >= 0) idx[0] = firstFixed;
             boolean done = false;
             while (!done) {
                 StringBuilder t = new StringBuilder();
@@ -274,8 +276,9 @@ public class VtlParseServer {
                     crashes++; if (problems.size() < 20) problems.add("crash:" + e + ":" + text);
                 }
                 int pos = len - 1;
-                while (pos >= 0) { idx[pos]++; if (idx[pos] < n) break; idx[pos] = 0; pos--; }
-                if (pos < 0) done = true;
+                int low = firstFixed >= 0 ? 1 : 0;
+                while (pos >= low) { idx[pos]++; if (idx[pos] < n) break; idx[pos] = 0; pos--; }
+                if (pos < low) done = true;
             }
         }
         StringBuilder sb = new StringBuilder();
@@ -285,6 +288,279 @@ public class VtlParseServer {
         for (int i = 0; i < problems.size(); i++) { if (i > 0) sb.append(','); esc(sb, problems.get(i)); }
         sb.append("],\"accepted_texts\":[");
         for (int i = 0; i < acceptedTexts.size(); i++) { if (i > 0) sb.append(','); esc(sb, acceptedTexts.get(i)); }
+        sb.append("]}");
+        return sb.toString();
+    }
+
+
+    // ---- cmd 6: one shortest sentence through every ATN transition (set members expanded) -----------
+    static String tokenText(int t) {
+        String lit = voc.getLiteralName(t);
+        if (lit != null && lit.length() >= 2) return lit.substring(1, lit.length() - 1).replace("\\'", "'");
+        String sym = voc.getSymbolicName(t);
+        if (sym == null) return null;
+        switch (sym) {
+            case "IDENTIFIER": return "DS_1";
+            case "INTEGER_CONSTANT": return "1";
+            case "NUMBER_CONSTANT": return "1.5";
+            case "STRING_CONSTANT": return "\"a\"";
+            case "BOOLEAN_CONSTANT": return "true";
+            case "EOL": return ";";
+            default: return null;   // tokens without a text we can spell (comments, WS) are never parser input
+        }
+    }
+
+    static List<int[]> labelChoices(Transition t) {
+        List<int[]> out = new ArrayList<>();
+        switch (t.getSerializationType()) {
+            case Transition.ATOM: case Transition.RANGE: case Transition.SET: {
+                for (int tok : t.label().toList()) if (tok == Token.EOF || tokenText(tok) != null) out.add(new int[]{tok});
+                break;
+            }
+            case Transition.NOT_SET: case Transition.WILDCARD: {
+                int max = patn.maxTokenType;
+                org.antlr.v4.runtime.misc.IntervalSet excl = t.getSerializationType() == Transition.NOT_SET ? t.label() : new org.antlr.v4.runtime.misc.IntervalSet();
+                for (int tok = 1; tok <= max; tok++) if (!excl.contains(tok) && tokenText(tok) != null) { out.add(new int[]{tok}); if (out.size() >= 3) break; }
+                break;
+            }
+            default: out.add(new int[0]);   // epsilon-like (epsilon, predicate, action, precedence); RULE handled by caller
+        }
+        return out;
+    }
+
+    static int[] cat(int[]... parts) {
+        int n = 0; for (int[] p : parts) n += p.length;
+        int[] r = new int[n]; int k = 0;
+        for (int[] p : parts) { System.arraycopy(p, 0, r, k, p.length); k += p.length; }
+        return r;
+    }
+
+    static String doGenerate() {
+        int nRules = patn.ruleToStartState.length;
+        int nStates = patn.states.size();
+        int[][] minSentence = new int[nRules][];
+        // fixpoint: minSuffix[s] = shortest token string from s to the stop state of its rule
+        int[][] minSuffix = new int[nStates][];
+        for (int r = 0; r < nRules; r++) minSuffix[patn.ruleToStopState[r].stateNumber] = new int[0];
+        boolean changed = true;
+        while (changed) {
+            changed = false;
+            for (ATNState s : patn.states) {
+                if (s == null || s instanceof RuleStopState) continue;
+                for (Transition t : s.getTransitions()) {
+                    int[] cand = null;
+                    if (t instanceof RuleTransition) {
+                        RuleTransition rt = (RuleTransition) t;
+                        int[] inner = minSentence[rt.ruleIndex];
+                        int[] rest = minSuffix[rt.followState.stateNumber];
+                        if (inner != null && rest != null) cand = cat(inner, rest);
+                    } else {
+                        int[] rest = minSuffix[t.target.stateNumber];
+                        if (rest != null) {
+                            List<int[]> ch = labelChoices(t);
+                            if (!ch.isEmpty()) cand = cat(ch.get(0), rest);
+                        }
+                    }
+                    if (cand != null && (minSuffix[s.stateNumber] == null || cand.length < minSuffix[s.stateNumber].length)) {
+                        minSuffix[s.stateNumber] = cand; changed = true;
+                    }
+                }
+            }
+            for (int r = 0; r < nRules; r++) {
+                int[] m = minSuffix[patn.ruleToStartState[r].stateNumber];
+                if (m != null && (minSentence[r] == null || m.length < minSentence[r].length)) { minSentence[r] = m; changed = true; }
+            }
+        }
+        // minPrefix[s] = shortest token string from the rule's start state to s
+        int[][] minPrefix = new int[nStates][];
+        for (int r = 0; r < nRules; r++) minPrefix[patn.ruleToStartState[r].stateNumber] = new int[0];
+        changed = true;
+        while (changed) {
+            changed = false;
+            for (ATNState s : patn.states) {
+                if (s == null || minPrefix[s.stateNumber] == null) continue;
+                for (Transition t : s.getTransitions()) {
+                    int[] cand; int tgt;
+                    if (t instanceof RuleTransition) {
+                        RuleTransition rt = (RuleTransition) t;
+                        if (minSentence[rt.ruleIndex] == null) continue;
+                        cand = cat(minPrefix[s.stateNumber], minSentence[rt.ruleIndex]); tgt = rt.followState.stateNumber;
+                    } else {
+                        List<int[]> ch = labelChoices(t);
+                        if (ch.isEmpty()) continue;
+                        cand = cat(minPrefix[s.stateNumber], ch.get(0)); tgt = t.target.stateNumber;
+                    }
+                    if (patn.states.get(tgt).ruleIndex != s.ruleIndex) continue;
+                    if (minPrefix[tgt] == null || cand.length < minPrefix[tgt].length) { minPrefix[tgt] = cand; changed = true; }
+                }
+            }
+        }
+        // context of every rule: (before, after) such that start =>* before <rule> after
+        int[][] before = new int[nRules][], after = new int[nRules][];
+        before[0] = new int[0]; after[0] = new int[0];
+        changed = true;
+        while (changed) {
+            changed = false;
+            for (ATNState s : patn.states) {
+                if (s == null || before[s.ruleIndex] == null || minPrefix[s.stateNumber] == null) continue;
+                for (Transition t : s.getTransitions()) {
+                    if (!(t instanceof RuleTransition)) continue;
+                    RuleTransition rt = (RuleTransition) t;
+                    int[] suf = minSuffix[rt.followState.stateNumber];
+                    if (suf == null) continue;
+                    int[] b = cat(before[s.ruleIndex], minPrefix[s.stateNumber]);
+                    int[] a = cat(suf, after[s.ruleIndex]);
+                    if (before[rt.ruleIndex] == null || b.length + a.length < before[rt.ruleIndex].length + after[rt.ruleIndex].length) {
+                        before[rt.ruleIndex] = b; after[rt.ruleIndex] = a; changed = true;
+                    }
+                }
+            }
+        }
+        LinkedHashSet<String> sentences = new LinkedHashSet<>();
+        int transitions = 0, covered = 0;
+        for (ATNState s : patn.states) {
+            if (s == null) continue;
+            for (Transition t : s.getTransitions()) {
+                transitions++;
+                int r = s.ruleIndex;
+                if (before[r] == null || minPrefix[s.stateNumber] == null) continue;
+                List<int[]> mids = new ArrayList<>();
+                int tgt;
+                if (t instanceof RuleTransition) {
+                    RuleTransition rt = (RuleTransition) t;
+                    if (minSentence[rt.ruleIndex] == null) continue;
+                    mids.add(minSentence[rt.ruleIndex]); tgt = rt.followState.stateNumber;
+                } else { mids = labelChoices(t); tgt = t.target.stateNumber; }
+                if (s instanceof RuleStopState) continue;
+                if (minSuffix[tgt] == null || mids.isEmpty()) continue;
+                covered++;
+                for (int[] mid : mids) {
+                    int[] toks = cat(before[r], minPrefix[s.stateNumber], mid, minSuffix[tgt], after[r]);
+                    StringBuilder sb = new StringBuilder();
+                    for (int tok : toks) { if (tok == Token.EOF) continue; if (sb.length() > 0) sb.append(' '); sb.append(tokenText(tok)); }
+                    sentences.add(sb.toString());
+                }
+            }
+        }
+        StringBuilder sb = new StringBuilder();
+        sb.append("{\"transitions\":").append(transitions).append(",\"transitions_with_sentence\":").append(covered).append(",\"sentences\":[");
+        boolean f = true;
+        for (String x : sentences) { if (!f) sb.append(','); f = false; esc(sb, x); }
+        sb.append("]}");
+        return sb.toString();
+    }
+
+    // ---- cmd 7: batch SLL-vs-LL comparison; payload = texts separated by \u0000 -----------------------
+    static String doBatchCompare(String payload) {
+        String[] texts = payload.split("\u0000", -1);
+        int n = 0, accepted = 0, diffs = 0, crashes = 0, badpos = 0; long fullCtx = 0, ctxSens = 0, nodes = 0;
+        TreeMap<Integer,Integer> byDecision = new TreeMap<>();
+        BitSet seen = new BitSet();
+        List<String> problems = new ArrayList<>();
+        for (String text : texts) {
+            n++;
+            try {
+                Parsed a = parse(text, 0, false);
+                a.p.decisionsSeen = null;
+                Parsed b = parse(text, 1, true);
+                // coverage of (decision, alternative) pairs is measured on a third, instrumented SLL parse
+                Parsed c = new Parsed();
+                {
+                    LexerInterpreter lexer = new LexerInterpreter("VtlTokens.g4", voc, lv.get(0), lv.get(1), lv.get(2), latn, CharStreams.fromString(text));
+                    c.ts = new CommonTokenStream(lexer);
+                    c.p = new Interp("Vtl.g4", voc, pv.get(0), patn, c.ts);
+                    c.p.decisionsSeen = seen;
+                    c.p.getInterpreter().setPredictionMode(PredictionMode.SLL);
+                    lexer.removeErrorListeners(); c.p.removeErrorListeners();
+                    c.p.parse(0);
+                }
+                String ca = canon(a.tree, a.p), cb = canon(b.tree, b.p);
+                boolean sameErr = a.fe.has == b.fe.has && (!a.fe.has || (a.fe.line == b.fe.line && a.fe.col == b.fe.col && a.fe.msg.equals(b.fe.msg)));
+                if (!a.fe.has) accepted++;
+                else {
+                    int nl = 1; for (int i = 0; i < text.length(); i++) if (text.charAt(i) == '\n') nl++;
+                    if (a.fe.line < 1 || a.fe.line > nl || a.fe.col < 0) { badpos++; if (problems.size() < 30) problems.add("badpos:" + text); }
+                }
+                if (!ca.equals(cb) || !sameErr) { diffs++; if (problems.size() < 30) problems.add("diff:" + text); }
+                fullCtx += b.diag.fullCtx; ctxSens += b.diag.ctxSens;
+                for (Map.Entry<Integer,Integer> e : b.diag.byDecision.entrySet()) byDecision.merge(e.getKey(), e.getValue(), Integer::sum);
+                nodes += ca.chars().filter(ch -> ch == ';').count();
+            } catch (Throwable e) {
+                crashes++; if (problems.size() < 30) problems.add("crash:" + e + ":" + text);
+            }
+        }
+        StringBuilder sb = new StringBuilder();
+        sb.append("{\"total\":").append(n).append(",\"accepted\":").append(accepted).append(",\"diffs\":").append(diffs)
+          .append(",\"crashes\":").append(crashes).append(",\"badpos\":").append(badpos).append(",\"full_ctx\":").append(fullCtx)
+          .append(",\"ctx_sens\":").append(ctxSens).append(",\"nodes\":").append(nodes).append(",\"decision_alts_seen\":").append(seen.cardinality())
+          .append(",\"by_decision\":{");
+        boolean f = true;
+        for (Map.Entry<Integer,Integer> e : byDecision.entrySet()) { if (!f) sb.append(','); f = false; sb.append('"').append(e.getKey()).append("\":").append(e.getValue()); }
+        sb.append("},\"seen\":[");
+        f = true;
+        for (int i = seen.nextSetBit(0); i >= 0; i = seen.nextSetBit(i + 1)) { if (!f) sb.append(','); f = false; sb.append(i); }
+        sb.append("],\"problems\":[");
+        for (int i = 0; i < problems.size(); i++) { if (i > 0) sb.append(','); esc(sb, problems.get(i)); }
+        sb.append("]}");
+        return sb.toString();
+    }
+
+
+    // ---- cmd 8: every single-token deletion / duplication / adjacent swap of a text -------------------
+    // payload: first line "cmp" or "sll", rest = the text. Mutants keep the original white space and comments.
+    static String doMutations(String payload) {
+        int nl0 = payload.indexOf('\n');
+        boolean cmp = payload.substring(0, nl0).trim().equals("cmp");
+        String text = payload.substring(nl0 + 1);
+        LexerInterpreter lexer = new LexerInterpreter("VtlTokens.g4", voc, lv.get(0), lv.get(1), lv.get(2), latn, CharStreams.fromString(text));
+        lexer.removeErrorListeners();
+        CommonTokenStream ts = new CommonTokenStream(lexer);
+        ts.fill();
+        List<Token> toks = new ArrayList<>();
+        for (Token t : ts.getTokens()) if (t.getChannel() == 0 && t.getType() != Token.EOF) toks.add(t);
+        int[] cps = text.codePoints().toArray();
+        java.util.function.BiFunction<Integer,Integer,String> sub = (a, b) -> new String(cps, a, Math.max(0, b - a));
+        List<String> mutants = new ArrayList<>();
+        for (int i = 0; i < toks.size(); i++) {
+            Token t = toks.get(i);
+            int a = t.getStartIndex(), b = t.getStopIndex() + 1;
+            mutants.add(sub.apply(0, a) + sub.apply(b, cps.length));                                   // deletion
+            mutants.add(sub.apply(0, b) + " " + sub.apply(a, b) + sub.apply(b, cps.length));           // duplication
+            if (i + 1 < toks.size()) {
+                Token u = toks.get(i + 1);
+                int c = u.getStartIndex(), d = u.getStopIndex() + 1;
+                mutants.add(sub.apply(0, a) + sub.apply(c, d) + sub.apply(b, c) + sub.apply(a, b) + sub.apply(d, cps.length)); // swap
+            }
+        }
+        long total = 0, accepted = 0, crashes = 0, diffs = 0, badpos = 0, fullctx = 0;
+        List<String> problems = new ArrayList<>();
+        List<String> acc = new ArrayList<>();
+        for (String m : mutants) {
+            total++;
+            try {
+                Parsed a = parse(m, 0, false);
+                if (a.fe.has) {
+                    int nl = 1; for (int i = 0; i < m.length(); i++) if (m.charAt(i) == '\n') nl++;
+                    if (a.fe.line < 1 || a.fe.line > nl || a.fe.col < 0) { badpos++; if (problems.size() < 10) problems.add("badpos:" + m); }
+                } else { accepted++; if (acc.size() < 400) acc.add(m); }
+                if (cmp) {
+                    Parsed b = parse(m, 1, true);
+                    fullctx += b.diag.fullCtx;
+                    boolean same = canon(a.tree, a.p).equals(canon(b.tree, b.p)) && a.fe.has == b.fe.has
+                        && (!a.fe.has || (a.fe.line == b.fe.line && a.fe.col == b.fe.col && a.fe.msg.equals(b.fe.msg)));
+                    if (!same) { diffs++; if (problems.size() < 10) problems.add("diff:" + m); }
+                }
+            } catch (Throwable e) {
+                crashes++; if (problems.size() < 10) problems.add("crash:" + e + ":" + m);
+            }
+        }
+        StringBuilder sb = new StringBuilder();
+        sb.append("{\"tokens\":").append(toks.size()).append(",\"total\":").append(total).append(",\"accepted\":").append(accepted)
+          .append(",\"crashes\":").append(crashes).append(",\"diffs\":").append(diffs).append(",\"badpos\":").append(badpos)
+          .append(",\"full_ctx\":").append(fullctx).append(",\"problems\":[");
+        for (int i = 0; i < problems.size(); i++) { if (i > 0) sb.append(','); esc(sb, problems.get(i)); }
+        sb.append("],\"accepted_texts\":[");
+        for (int i = 0; i < acc.size(); i++) { if (i > 0) sb.append(','); esc(sb, acc.get(i)); }
         sb.append("]}");
         return sb.toString();
     }
@@ -340,6 +616,9 @@ public class VtlParseServer {
                 else if (cmd == 3) reply = doCompare(text);
                 else if (cmd == 4) reply = doEnumerate(text);
                 else if (cmd == 5) reply = doFacts();
+                else if (cmd == 6) reply = doGenerate();
+                else if (cmd == 7) reply = doBatchCompare(text);
+                else if (cmd == 8) reply = doMutations(text);
                 else reply = "{\"crash\":\"unknown cmd\"}";
             } catch (Throwable e) {
                 StringBuilder sb = new StringBuilder("{\"crash\":"); esc(sb, e.toString()); sb.append('}');
